@@ -587,6 +587,12 @@ rfbClientConnectionGone(rfbClientPtr cl)
     if(cl->sock != RFB_INVALID_SOCKET)
 	rfbCloseSocket(cl->sock);
 
+    /* a file transfer must not outlive its connection */
+    if (cl->fileTransfer.fd != -1) {
+        close(cl->fileTransfer.fd);
+        cl->fileTransfer.fd = -1;
+    }
+
     if (cl->scaledScreen!=NULL)
         cl->scaledScreen->scaledScreenRefCount--;
 
@@ -1429,7 +1435,15 @@ rfbBool rfbSendDirContent(rfbClientPtr cl, int length, char *buffer)
         return rfbSendFileTransferMessage(cl, rfbDirPacket, rfbADirectory, 0, 0, NULL);
 
     /* send back the path name (necessary for links) */
-    if (rfbSendFileTransferMessage(cl, rfbDirPacket, rfbADirectory, 0, length, buffer)==FALSE) return FALSE;
+    if (rfbSendFileTransferMessage(cl, rfbDirPacket, rfbADirectory, 0, length, buffer)==FALSE)
+    {
+#ifdef WIN32
+        FindClose(findHandle);
+#else
+        closedir(dirp);
+#endif
+        return FALSE;
+    }
 
 #ifdef WIN32
     while (findHandle != INVALID_HANDLE_VALUE)
@@ -1760,6 +1774,9 @@ rfbBool rfbProcessFileTransfer(rfbClientPtr cl, uint8_t contentType, uint8_t con
         /* The client requests a File */
         if (!rfbFilenameTranslate2UNIX(cl, buffer, filename1, sizeof(filename1)))
             goto fail;
+        /* do not leak the descriptor of a transfer that is still open */
+        if (cl->fileTransfer.fd!=-1)
+            close(cl->fileTransfer.fd);
         cl->fileTransfer.fd=open(filename1, O_RDONLY, 0744);
 
         /*
@@ -1883,6 +1900,9 @@ rfbBool rfbProcessFileTransfer(rfbClientPtr cl, uint8_t contentType, uint8_t con
         /* If the file exists... We can send a rfbFileChecksums back to the client before we send an rfbFileAcceptHeader */
         /* TODO: Delta Transfer */
 
+        /* do not leak the descriptor of a transfer that is still open */
+        if (cl->fileTransfer.fd!=-1)
+            close(cl->fileTransfer.fd);
         cl->fileTransfer.fd=open(filename1, O_CREAT|O_WRONLY|O_TRUNC, 0744);
         if (DB) rfbLog("rfbProcessFileTransfer() rfbFileTransferOffer(\"%s\"->\"%s\") %s %s fd=%d\n", buffer, filename1, (cl->fileTransfer.fd==-1?"Failed":"Success"), (cl->fileTransfer.fd==-1?strerror(errno):""), cl->fileTransfer.fd);
         /*
